@@ -38,6 +38,9 @@ func init() {
 		for i := 0; i < n; i++ {
 			p := g.R.between(1, 9)
 			c := Ctx{P: p, Emin: -g.R.between(0, 6), Emax: g.R.between(p, p+6), R: modeNames[g.R.Intn(8)]}
+			if g.R.Intn(3) == 0 {
+				c.Emax = g.R.between(0, 3)
+			}
 			op := []string{"log10", "ln", "exp", "sqrt", "cbrt", "log10", "ln"}[g.R.Intn(7)]
 			var x Dec
 			switch op {
@@ -48,6 +51,20 @@ func init() {
 				x = finDec(false, b, -k)
 				if g.R.Intn(4) == 0 {
 					x = finDec(false, g.R.digits(g.R.between(1, p+2)), g.R.between(-30, 30))
+				}
+				if g.R.Intn(4) == 0 { // a logarithm whose magnitude is just inside (or outside) 10^(Emax+1)
+					lim := 10
+					for j := 0; j < c.Emax && lim < 100000; j++ {
+						lim *= 10
+					}
+					k := g.R.between(lim/5, lim+lim/10)
+					if k > 99000 {
+						k = 99000
+					}
+					if g.R.bool() {
+						k = -k
+					}
+					x = finDec(false, g.R.digits(g.R.between(1, 3)), k)
 				}
 			case "exp":
 				x = finDec(g.R.bool(), g.R.digits(g.R.between(1, 3)), g.R.between(-9, 0))
